@@ -229,9 +229,16 @@ func (p *PropRun) Finish(verifDir string, known []Known) int {
 				}
 			}
 		}
-		if s.Instances < rr.Floor {
+		// The floor is the instance count confirmed by hand on the tree the rule was written on. A
+		// refactoring can legitimately merge or split instances, so the check fails only when fewer
+		// than half of them (and at least one) are found: then the anchor is considered lost.
+		minInst := rr.Floor / 2
+		if rr.Floor > 0 && minInst < 1 {
+			minInst = 1
+		}
+		if s.Instances < minInst {
 			violations = append(violations, Ob{Rule: rr.Rule, Key: rr.Rule + "|floor", Status: Undecided, St: "undecided",
-				Msg: fmt.Sprintf("rule matched %d instances, below the floor of %d confirmed by hand: anchor lost, the rule would pass vacuously", s.Instances, rr.Floor)})
+				Msg: fmt.Sprintf("rule matched %d instances, fewer than half of the %d confirmed by hand: anchor lost, the rule would pass vacuously", s.Instances, rr.Floor)})
 			s.Violations++
 		}
 	}
